@@ -57,6 +57,9 @@ OPTS = [
     {}, {"initialize_vars": True}, {"initialize_vars": True, "default_str_storage": 80},
     {"output_dependencies": True, "procname": "p", "initialize_vars": True},
     {"output_dependencies": True, "procname": "p", "default_str_storage": 64, "filter_unused_linenum": True},
+    {"output_dependencies": True, "procname": "maze.v2", "initialize_vars": True},
+    {"output_dependencies": True, "procname": "my game"}, {"output_dependencies": True, "procname": ""},
+    {"output_dependencies": True, "procname": "x-1_Y", "default_width32": False},
 ]
 
 
